@@ -15,6 +15,25 @@ def no_spans(x):
 
 
 CONFIG = {
+    "C01": {
+        "lean_modules": ["Darling.Props.C01", "Darling.Props.C02"],
+        "streams": [
+            {"name": "c01", "n": {"quick": 8000, "thorough": 160000},
+             "trivial": lambda case, ans: not ans.startswith("(ok")},
+        ],
+        "rule": "compiled corpus of 110 struct + 50 enum FromMeta receivers over the derive option space (rename, rename_all x5, default none/bare/fn at field and container level, skip in 3 spellings, multiple, flatten (nested receiver / map), with (path / closure), map, and_then, allow_unknown_fields, word; nested to depth 3), each declaration read back from the compiled source; inputs composed from per-field templates (any subset of optional fields, shuffled order, 0..3 occurrences of multiple fields, every accepted literal spelling, flatten payloads); non-trivial = the input is accepted (Ok) with a value; distinct by case text",
+        "assumptions": ["field converters, custom functions and Default impls are parameters of the theorems; their values are shipped as oracle rows evaluated on the real functions", "WF: field identifiers distinct, converters return (no panic)"],
+        "partial": "FromMeta structs (and enums via C09's model); the five element-level traits are covered by C08/C16's streams",
+    },
+    "C02": {
+        "lean_modules": ["Darling.Props.C02"],
+        "streams": [
+            {"name": "c02", "n": {"quick": 12000, "thorough": 240000},
+             "trivial": lambda case, ans: not ans.startswith("(err")},
+        ],
+        "rule": "same corpus; inputs are valid compositions with 1..4 injected mistakes (unknown name at edit distance 1..2 of a valid name, repeated item, bare literal, dropped required item, rejected value) plus whole-value samples with mistakes inside nested receivers, enum variants and map values; non-trivial = the input is rejected; distinct by case text",
+        "assumptions": ["strsim scores are oracle rows", "WF as for C01"],
+    },
     "C03": {
         "lean_modules": ["Darling.Props.C03"],
         "streams": [
